@@ -389,15 +389,17 @@ class Gen:
       v = r.choice(scal)
       t = env[v]
       items = [Lit(self.Const(t)) for _ in range(r.randint(1, 3))]
-      # no duplicates: multiplicity of `bound in [..dups..]` is engine-defined
-      seen, uniq = set(), []
-      for it in items:
-        k = str(it)
-        if k not in seen:
-          seen.add(k)
-          uniq.append(it)
+      vals = []
+      # values that occur, so that the filter is live; repeats are wanted:
+      # `x in [a, a]` means two alternatives
+      if r.random() < 0.5:
+        items.append(items[0])
+        self.features.add('inc_filter_repeated_element')
+      same = [w for w in self.VarsOf(env, t) if w != v]
+      if same and r.random() < 0.3:
+        items.append(Var(r.choice(same)))
       self.features.add('inc_filter')
-      return [Inc(Var(v), ListE(uniq))]
+      return [Inc(Var(v), ListE(items))]
     if kind == 'alt' and depth == 0 and r.random() < 0.3 and scal:
       cands = [s for s in self.Materialised()
                if sum(1 for _, ft in s.fields if self.Scalar(ft)) >= 1 and
@@ -461,6 +463,10 @@ class Gen:
       if r.random() < 0.3 and [v for v in sub_env if self.Scalar(sub_env[v])]:
         body.append(Cmp(self.Cond(sub_env, 1)))
       self.Exit()
+      if len(body) == 1 and r.random() < 0.25:
+        # ~(~P): a pure filter, it must not multiply by the witnesses of P
+        self.features.add('double_negation')
+        return [Neg([Neg(body)])]
       return [Neg(body)]
     if kind == 'impl' and self.Materialised():
       # A => B, i.e. ~(A, ~B)
